@@ -90,10 +90,66 @@ pub fn dump(js: &JournaledState) -> String {
     format!("d={} L={} T={} S={}", js.depth, logs.join(","), tr.join(","), accs.join("|"))
 }
 
+/// Observable state per DESIGN Appendix A.1 (the property's own oracle for C06): absent accounts and
+/// slots read as the database says, cold unless tx-level pre-warmed; whether code is cached is dropped;
+/// the touched mark of 0x03 is not observable from Spurious Dragon on.
+pub fn abs_dump(js: &JournaledState, db: &TestDb) -> String {
+    let sd = js.spec.is_enabled_in(SpecId::SPURIOUS_DRAGON);
+    let mut accs = vec![];
+    for i in 1..=8u64 {
+        let a = addr(i);
+        let acc = js.state.get(&a);
+        let dbi = db.accounts.get(&a);
+        let (bal, nonce, hash, fl, warm) = match acc {
+            Some(acc) => {
+                let mut fl = String::new();
+                if acc.is_created() { fl.push('C'); }
+                if acc.is_selfdestructed() { fl.push('S'); }
+                if acc.is_touched() && !(sd && i == 3) { fl.push('T'); }
+                if acc.is_loaded_as_not_existing() { fl.push('N'); }
+                (acc.info.balance, acc.info.nonce, acc.info.code_hash, fl, !acc.status.contains(revm::primitives::AccountStatus::Cold))
+            }
+            None => match dbi {
+                Some(i2) => (i2.balance, i2.nonce, i2.code_hash, String::new(), js.warm_preloaded_addresses.contains(&a)),
+                None => (U256::ZERO, 0, KECCAK_EMPTY, "N".to_string(), js.warm_preloaded_addresses.contains(&a)),
+            },
+        };
+        let mut slots = vec![];
+        for k in 0..4u64 {
+            let key = U256::from(k);
+            let dbv = db.storage.get(&(a, key)).copied().unwrap_or_default();
+            let (o, p, w) = match acc {
+                Some(acc) => match acc.storage.get(&key) {
+                    Some(sl) => (sl.original_value, sl.present_value, !sl.is_cold),
+                    None => {
+                        let v = if acc.is_created() { U256::ZERO } else { dbv };
+                        (v, v, false)
+                    }
+                },
+                None => (dbv, dbv, false),
+            };
+            slots.push(format!("{},{},{}", hx(o), hx(p), b01(w)));
+        }
+        accs.push(format!("{:x}:{}/{:x}/{}/{}/w{}/[{}]", i, hx(bal), nonce, hx(h2w(hash)), fl, b01(warm), slots.join(";")));
+    }
+    let mut tr = vec![];
+    for i in 1..=8u64 {
+        for k in 0..4u64 {
+            let v = js.transient_storage.get(&(addr(i), U256::from(k))).copied().unwrap_or_default();
+            if !v.is_zero() {
+                tr.push(format!("{:x}.{:x}={}", i, k, hx(v)));
+            }
+        }
+    }
+    let logs: Vec<String> = js.logs.iter().map(|l| format!("{:x}", l.data.data.len())).collect();
+    format!("L={} T={} A={}", logs.join(","), tr.join(","), accs.join("|"))
+}
+
 pub struct Exec {
     pub js: JournaledState,
     pub db: TestDb,
     pub cps: Vec<JournalCheckpoint>,
+    pub snaps: Vec<String>,
     pub dead: bool,
 }
 
@@ -114,7 +170,7 @@ fn split_list<'a>(s: &'a str, sep: char) -> Vec<&'a str> {
 
 impl Exec {
     pub fn new() -> Self {
-        Exec { js: JournaledState::new(SpecId::FRONTIER, HashSet::default()), db: TestDb::default(), cps: vec![], dead: true }
+        Exec { js: JournaledState::new(SpecId::FRONTIER, HashSet::default()), db: TestDb::default(), cps: vec![], snaps: vec![], dead: true }
     }
     pub fn begin(&mut self, t: &[&str]) -> String {
         if t.len() != 5 {
@@ -145,6 +201,7 @@ impl Exec {
         self.js = JournaledState::new(spec, pre);
         self.db = db;
         self.cps.clear();
+        self.snaps.clear();
         self.dead = false;
         format!("ok || {}", dump(&self.js))
     }
@@ -214,17 +271,21 @@ impl Exec {
             ["create", c, a, hs, bal, spec] => {
                 let hs = match *hs { "1" => true, "0" => false, _ => return None };
                 let spec = spec.parse::<u8>().ok().and_then(spec_of)?;
+                let snap = abs_dump(js, db);
                 match js.create_account_checkpoint(pa(c)?, pa(a)?, hs, px(bal)?, spec) {
                     Ok(cp) => {
                         self.cps.push(cp);
+                        self.snaps.push(snap);
                         format!("ok cp {}", self.cps.len() - 1)
                     }
                     Err(e) => format!("err {:?}", e),
                 }
             }
             ["checkpoint"] => {
+                let snap = abs_dump(js, db);
                 let cp = js.checkpoint();
                 self.cps.push(cp);
+                self.snaps.push(snap);
                 format!("cp {}", self.cps.len() - 1)
             }
             ["commit"] => {
@@ -235,7 +296,7 @@ impl Exec {
                 let i: usize = i.parse().ok()?;
                 let cp = *self.cps.get(i)?;
                 js.checkpoint_revert(cp);
-                "ok".into()
+                format!("ok restored={}", b01(self.snaps[i] == abs_dump(js, db)))
             }
             _ => return None,
         };
